@@ -154,7 +154,7 @@ func c19GraphDiff(a, b *c19Node) string {
 func c19PlanMulti(c *Ctx, cs *c19Case, plan []c19Planned, fresh func() string) [][]c19Edit {
 	nFirst, nSecond := 4, 4
 	if c.Thorough {
-		nFirst, nSecond = 8, 6
+		nFirst, nSecond = 6, 5
 	}
 	var renames, others []c19Edit
 	for _, pl := range plan {
